@@ -6,7 +6,11 @@ package statrs where
 
 @[default_target]
 lean_lib Statrs where
-  globs := #[.submodules `Statrs]
+  -- everything except `Statrs/Draft/**` (staging area for theorem files that are still being written: a module
+  -- there is reachable as `lake build Statrs.Draft.X` but is not part of `lake build Statrs`)
+  globs := #[.one `Statrs.Basic, .submodules `Statrs.Audit, .submodules `Statrs.Driver, .submodules `Statrs.Gen,
+             .submodules `Statrs.Inst, .submodules `Statrs.Lemmas, .submodules `Statrs.Model, .submodules `Statrs.Props,
+             .submodules `Statrs.Real, .submodules `Statrs.Spec]
 
 target shim.o pkg : System.FilePath := do
   let oFile := pkg.buildDir / "c" / "shim.o"
@@ -20,3 +24,8 @@ extern_lib libshim pkg := do
 
 lean_exe driver where
   root := `Driver
+
+/-- staging area (not a default target) -/
+lean_lib StatrsDraft where
+  roots := #[`Statrs.Draft]
+  globs := #[.submodules `Statrs.Draft]
